@@ -141,12 +141,38 @@ class RefIconv:
             self.libc.iconv_close.argtypes = [ctypes.c_void_p]
         self.cds = {}
 
+    # conversions whose descriptor may be kept: nothing in them survives `iconv(cd, NULL, NULL, NULL, NULL)`.  glibc's UTF-16 / UTF-32 /
+    # UCS-2 / UNICODE decoders remember the byte order a BOM once selected ACROSS a reset, so a cached descriptor answers later inputs
+    # differently from the fresh one lib/iconv.py opens for every call: those get a fresh descriptor per conversion (closed by `convert`).
+    KEEP = {'EUC-TW', 'KOI8-T', 'KOI8-RU', 'VISCII', 'GEORGIAN-PS', 'UTF-8', 'UTF-32LE', 'WCHAR_T', 'ISO-8859-1', 'CP1252'}
+
     def cd(self, to, frm):
         key = (to, frm)
+        if to.upper() not in self.KEEP or frm.upper() not in self.KEEP:
+            if self.cds.get(key, 0) is None:
+                return None
+            h = self.libc.iconv_open(to.encode('ascii'), frm.encode('ascii'))
+            if h is None or h == ctypes.c_void_p(-1).value:
+                self.cds[key] = None
+                return None
+            self.fresh = h
+            return h
         if key not in self.cds:
             h = self.libc.iconv_open(to.encode('ascii'), frm.encode('ascii'))
             self.cds[key] = None if (h is None or h == ctypes.c_void_p(-1).value) else h
         return self.cds[key]
+
+    def available(self, to, frm):
+        cd = self.cd(to, frm)
+        if cd is None:
+            return False
+        self.release(cd)
+        return True
+
+    def release(self, cd):
+        if getattr(self, 'fresh', None) == cd and cd is not None:
+            self.libc.iconv_close(cd)
+            self.fresh = None
 
     def convert(self, to, frm, data):
         """{'rc': ok|eilseq|einval|e2big|errno N|unavailable, 'consumed', 'main': bytes, 'flush': bytes}"""
@@ -155,6 +181,12 @@ class RefIconv:
         cd = self.cd(to, frm)
         if cd is None:
             return {'rc': 'unavailable'}
+        try:
+            return self._convert(cd, data)
+        finally:
+            self.release(cd)
+
+    def _convert(self, cd, data):
         M1 = ctypes.c_size_t(-1).value
         self.libc.iconv(cd, None, None, None, None)
         cap = 8 * len(data) + 64
@@ -875,6 +907,30 @@ def build_streams(chk, names, sizes):
         if m != n:
             lines.append(f'charset search {hexchars(m)}'); outs.append(impl_search(m))
     fam['names'] = (lines, outs)
+    # ---- the registry: the model of `codecs.lookup(name).name` (C normalisation, alias table, encodings.<module>, the tool's search
+    # function) against the running interpreter, on the name pool and on punctuation / case / dot variants of it
+    lines, outs = [], []
+    seen = set()
+    def registry_line(n):
+        if n in seen or '\0' in n:
+            return
+        try:
+            n.encode('utf-8')
+        except UnicodeEncodeError:
+            return
+        seen.add(n)
+        c = lookup_name(n)
+        lines.append(f'charset lookup {hexchars(n)}'); outs.append('none' if c is None else 'some ' + hexchars(c))
+    for n in names:
+        registry_line(n)
+        for v in (n.upper(), n.lower().replace('-', '_'), n.replace('_', ' '), ' ' + n + ' ', n.replace('-', '--'), n.replace('_', '.'), n.replace('-', '.'),
+                  '-' + n, n + '!', n.replace('8', '-8', 1), 'é' + n, n[:-1] + '.' + n[-1:] if n else n):
+            if rng.random() < 0.25:
+                registry_line(v)
+    for n in ['', '.', '..', '_', 'aliases', 'encodings.utf_8', 'utf.8', 'utf_8.', '.utf_8', 'utf_8_', 'UTF 8', 'utf\t8', 'ISO_8859-1:1987', 'iso.8859.1', '8859_1', '8859-1',
+              '8859', 'mbcs', 'oem', 'koi8.t', 'KOI8 T', 'euc tw', 'euc.tw', 'georgian ps', 'viscii.', 'x!!y', 'latin-1', 'l1', 'L 1', 'u8', 'U.8', 'cp-1252', 'cp_1252', 'cp.1252']:
+        registry_line(n)
+    fam['registry'] = (lines, outs)
     # ---- charmap codecs
     lines, outs = [], []
     try:
@@ -905,7 +961,7 @@ def build_streams(chk, names, sizes):
     R = ref()
     if R.ok:
         for enc in REAL_LOOP_ENCODINGS:
-            if R.cd('WCHAR_T', enc) is None:
+            if not R.available('WCHAR_T', enc):
                 continue
             pool = G.byte_strings_euctw(rng, sizes['real_loop'], plane_sample=sizes['real_loop']) if enc == 'EUC-TW' \
                 else G.byte_strings_single(rng, sizes['real_loop'])
@@ -945,7 +1001,7 @@ def build_streams(chk, names, sizes):
     fam['loader'] = (lines, outs)
     # ---- EUC-TW: the structural model against the tool's codec; the CNS tables are asked of iconv unit by unit
     lines, outs = [], []
-    if R.ok and R.cd('UTF-32LE', 'EUC-TW') is not None:
+    if R.ok and R.available('UTF-32LE', 'EUC-TW'):
         seen_text = set()
         for b in [x for c, x in CORPUS_BYTES if c == 'EUC-TW'] + G.byte_strings_euctw(rng, sizes['euctw'], plane_sample=sizes['euctw']):
             if not b:
@@ -970,6 +1026,92 @@ def build_streams(chk, names, sizes):
             out = impl_real_encode('EUC-TW', t)[0].split(' trace=')[0]
             outs.append('err ' + out.split(' ')[1] if out.startswith('uerr') else out)
     fam['euctw'] = (lines, outs)
+    ref_calls = []
+    # ---- EUC-TW once more, now against the model over the GENERATED tables (Generated.CharsetCns*: every answer of the system
+    # iconv, dumped by tools/translate/charsetcns2lean.py): no oracle travels with the line.  `rt` = what theorem euctw_roundtrip
+    # predicts for encode(decode(b)) == b, compared with what the tool's codec does.
+    lines, outs = [], []
+    if R.ok and R.available('UTF-32LE', 'EUC-TW'):
+        rows = range(0xA1, 0xFF)
+        pool = [bytes([a, b]) for a in rows for b in (rows if sizes.get('euctw_all') else rng.sample(list(rows), 12))]
+        pool += [bytes.fromhex(h) for h in ('8ea3a1b8', 'a4bf', '8ea1a4bf', '8ea3a1b7', '8ea3a1b9', '8ea2a4a1', '8ea1a4a1', '8eafa1a1', '8eb0a1a1', '8eb1a1a1',
+                                             '8ea0a1a1', '8ea8a1a1', '8ea1a1', '8ea1', '8e', '8ea3a1b841', '418ea3a1b8', 'a4a18ea1a4a1a4a1')]
+        for p in range(1, 18):
+            for _ in range(sizes['euctw'] // 12):
+                pool.append(bytes([0x8E, 0xA0 + p, rng.randrange(0xA1, 0xFF), rng.randrange(0xA1, 0xFF)]))
+        pool += [x for c, x in CORPUS_BYTES if c == 'EUC-TW'] + G.byte_strings_euctw(rng, sizes['euctw'], plane_sample=0)
+        seen_text = set()
+        for b in pool:
+            if not b:
+                continue
+            lines.append(f'charset euctw-rdec {hexbytes(b)}')
+            out, sess = impl_real_decode('EUC-TW', b)
+            ref_calls.append(('refdec euctw', hexbytes(b), sess))
+            head = out.split(' trace=')[0]
+            if head.startswith('uerr'):
+                kind = sess.recorded[-1][2][0] if sess.recorded else '?'
+                head = f'err {head.split(" ")[1]} {kind}'
+            elif head.startswith('ok '):
+                try:
+                    t = timed('EUC-TW', lambda: bytes(b).decode('EUC-TW'))
+                    back = timed('EUC-TW', lambda: t.encode('EUC-TW'))
+                    head += f' rt={int(back == b)}'
+                    if len(seen_text) < sizes['euctw']:
+                        seen_text.add(t)
+                except Exception as exc:
+                    head += ' rt=' + crash(exc)
+            outs.append(head)
+        tags = ['\U000e0000', '\U000e0041', '\U000e007f', 'a\U000e0041b', '\U000e0041\uff10\U000e0001', '\U000e0080', '\U000dffff', 'a\U000e0080']
+        for t in tags + sorted(seen_text) + G.texts(rng, sorted(set(''.join(seen_text))), sizes['euctw'] // 4):
+            if not t:
+                continue
+            try:
+                t.encode('utf-32-le')
+            except UnicodeEncodeError:
+                continue
+            lines.append(f'charset euctw-renc {hexchars(t)}')
+            out, sess = impl_real_encode('EUC-TW', t)
+            ref_calls.append(('refenc euctw', hexchars(t), sess))
+            out = out.split(' trace=')[0]
+            outs.append('err ' + out.split(' ')[1] if out.startswith('uerr') else out)
+    fam['euctw-real'] = (lines, outs)
+    # ---- the reference iconv (Spec/CharsetIconv.lean: unit by unit, room checked first, offending unit unconsumed) against
+    # the real glibc, CALL BY CALL: every conversion call the tool's loop made above (told = n, 2n, 4n, …) with its return
+    # code, the input it consumed and the bytes it wrote; plus KOI8-T through the tool's own binding
+    if R.ok and R.available('UTF-32LE', 'KOI8-T'):
+        kb = [bytes([x]) for x in range(256)] + [bytes([0x41, x, 0x42]) for x in range(0x80, 0x100, 5)] + G.byte_strings_single(rng, sizes['euctw'] // 6)
+        ktexts = set()
+        for b in kb:
+            if not b:
+                continue
+            out, sess = impl_real_decode('KOI8-T', b)
+            ref_calls.append(('refdec koi8t', hexbytes(b), sess))
+            if out.startswith('ok '):
+                try:
+                    ktexts.add(bytes(b).decode('koi8_t'))
+                except Exception:
+                    pass
+        for t in ['\U000e0041', 'a\U000e0041b', '\u0451\U000e0001', '\ufffe', 'a\u20acb'] + G.texts(rng, sorted(set(''.join(ktexts))), sizes['euctw'] // 6):
+            if not t:
+                continue
+            try:
+                t.encode('utf-32-le')
+            except UnicodeEncodeError:
+                continue
+            out, sess = impl_real_encode('KOI8-T', t)
+            ref_calls.append(('refenc koi8t', hexchars(t), sess))
+    lines, outs = [], []
+    for op, arg, sess in ref_calls:
+        for r in (sess.recorded or []):
+            told, reset, main, flush = r
+            if told is None or reset is not None:
+                continue
+            lines.append(f'charset {op} {arg} {told}')
+            o = f'{main[0]} {main[1]} {hexbytes(main[2])}'
+            if main[0] == 'ok' and tuple(flush) != ('ok', 0, b''):
+                o += f' flush={flush[0]}:{hexbytes(flush[2])}'
+            outs.append(o)
+    fam['reficonv'] = (lines, outs)
     # ---- character lists
     lines, outs = [], []
     sects = language_sections()
@@ -1125,6 +1267,91 @@ def falsify_classification(chk, names, ships):
         if len(cex) > 40:
             break
     chk.coverage.setdefault('falsifier', {})['classification'] = dict(stats)
+    return cex
+
+# ---- which bytes does the ASCII-compatibility test look at?  (mutant class "test set widened / narrowed")
+
+def _deviant_search(name):
+    """`verif_dev_XX`: a byte-wise codec that is ASCII except that byte 0xXX decodes to U+0100 (registered by the harness through
+    the public `codecs.register`; latin-1 above 0x7F)"""
+    if name.startswith('verif_dev_') and len(name) == 12:
+        try:
+            x = int(name[10:], 16)
+        except ValueError:
+            return None
+        def decode(data, errors='strict', x=x):
+            return ''.join('\u0100' if b == x else chr(b) for b in bytes(data)), len(data)
+        def encode(text, errors='strict', x=x):
+            return bytes(x if c == '\u0100' else ord(c) for c in text), len(text)
+        return codecs.CodecInfo(encode=encode, decode=decode, name=name)
+
+_dev_registered = False
+def deviant_codec(x):
+    global _dev_registered
+    if not _dev_registered:
+        codecs.register(_deviant_search)
+        _dev_registered = True
+    return f'verif_dev_{x:02x}'
+
+def independent_verdict(name, data):
+    """does `data` (ASCII bytes) decode to itself with codec `name` — asked of the codec directly"""
+    try:
+        with common.deadline(20):
+            r = data.decode(name)
+    except Exception:
+        return False
+    return isinstance(r, str) and r == data.decode('ascii')
+
+def falsify_test_set(chk, names):
+    """The tool's verdict for every codec name against TWO independent readings of "decoding the ASCII repertoire yields the same
+    characters": over the documented repertoire (NUL EOT BEL BS HT LF VT FF CR ESC + printable), and over all 128 ASCII bytes;
+    plus, for every single ASCII byte, a synthetic byte-wise codec that deviates at that byte only (a tested byte must make the
+    verdict False, an untested one must not).  Reports which test set explains the tool's verdicts."""
+    cex = Cex()
+    doc = G.ASCII_REPERTOIRE
+    full = bytes(range(128))
+    stats = collections.Counter()
+    obs = {}
+    pool = list(dict.fromkeys(list(names) + [deviant_codec(x) for x in range(128)]))
+    for n in pool:
+        a = impl_ascii(1, n)
+        if a not in '01':
+            continue
+        obs[n] = (a == '1', independent_verdict(n, doc), independent_verdict(n, full))
+    wrong_doc = sorted(n for n, (a, d, f) in obs.items() if a != d)
+    wrong_full = sorted(n for n, (a, d, f) in obs.items() if a != f)
+    stats['names'] = len(obs)
+    stats['tool != documented-set verdict'] = len(wrong_doc)
+    stats['tool != all-128-bytes verdict'] = len(wrong_full)
+    stats['names where the two readings differ'] = sum(1 for a, d, f in obs.values() if d != f)
+    reading = 'the documented test set' if not wrong_doc else 'all 128 ASCII bytes' if not wrong_full else None
+    explained = None
+    if wrong_doc and reading != 'all 128 ASCII bytes':
+        # which single change of the set explains every verdict?  (bounded: one byte dropped, one byte added, a contiguous tail/head dropped)
+        cands = [('without', [x]) for x in sorted(set(doc))] + [('with', [x]) for x in range(128) if x not in doc]
+        cands += [('without', list(range(x, 127))) for x in range(33, 127)] + [('without', list(range(32, x))) for x in range(33, 127)]
+        for how, xs in cands:
+            test = bytes(b for b in doc if b not in xs) if how == 'without' else bytes(sorted(set(doc) | set(xs)))
+            if all(independent_verdict(n, test) == a for n, (a, d, f) in obs.items() if n in wrong_doc) and \
+               all(independent_verdict(n, test) == a for n, (a, d, f) in list(obs.items())[::7]):
+                explained = f'the documented set {how} ' + ' '.join(f'0x{x:02X}' for x in xs)
+                break
+    attr = None
+    try:
+        ib = mods()[0]._interesting_ascii_bytes
+        if isinstance(ib, bytes) and ib != doc:
+            attr = {'missing': [f'0x{x:02X}' for x in sorted(set(doc) - set(ib))], 'extra': [f'0x{x:02X}' for x in sorted(set(ib) - set(doc))]}
+    except Exception:
+        pass
+    chk.coverage.setdefault('falsifier', {})['test-set'] = dict(stats, reading_implemented=reading or explained or 'no single test set explains the verdicts')
+    for n in wrong_doc[:6]:
+        a, d, f = obs[n]
+        synthetic = n.startswith('verif_dev_')
+        cex.append({'kind': 'ascii-test-set', 'key': 'ascii-set:' + n, 'name': n, 'observed': a, 'documented_set_verdict': d, 'all_128_bytes_verdict': f,
+                    'reading_the_code_implements': reading or explained or 'neither', '_interesting_ascii_bytes': attr,
+                    'synthetic_codec': synthetic,
+                    'replay': (f'codecs.register(<byte-wise codec, ASCII except 0x{n[10:]} -> U+0100>); ' if synthetic else '')
+                              + f'lib.encodings.is_ascii_compatible_encoding({n!r})'})
     return cex
 
 def _guard(fn, name, seconds=20):
@@ -1310,7 +1537,7 @@ def falsify_loop(chk, sizes):
     R = ref()
     if R.ok:
         for enc in REAL_LOOP_ENCODINGS:
-            if R.cd('UTF-32LE', enc) is None:
+            if not R.available('UTF-32LE', enc):
                 continue
             pool = G.byte_strings_euctw(rng, sizes['loop_real'], plane_sample=sizes['loop_real']) if enc == 'EUC-TW' \
                 else G.byte_strings_single(rng, sizes['loop_real'])
